@@ -219,6 +219,26 @@ def check_spec(case):
                         diff = m.compare(*files[::-1], solution=sol)
                         if diff:
                             fails.append(('compare|nonempty-reversed-files', 'compare() with the files in reverse order reports %s' % (diff[:2],)))
+                    # the solution written into the LOADED books (original sheet titles, formulas replaced by values) and saved
+                    # (only when every sheet of every book holds a cell: an empty loaded sheet is not part of the model)
+                    outl = os.path.join(d, 'outl')
+                    used = {(c['at'][0], c['at'][1]) for c in spec['cells'] if c.get('v', 1) != ''}
+                    allused = all((bi, si) in used for bi, bk in enumerate(spec['books']) for si in range(len(bk['sheets'])))
+                    if allused:
+                        m.write(books=m.books, solution=sol, dirpath=outl)
+                    lfiles = []
+                    for bk in spec['books']:
+                        alt = [f_ for f_ in os.listdir(outl) if f_.upper() == bk['name'].upper()] if os.path.isdir(outl) else []
+                        if alt:
+                            lfiles.append(os.path.join(outl, alt[0]))
+                    if not allused:
+                        pass
+                    elif len(lfiles) == len(spec['books']):
+                        diff = m.compare(*lfiles, solution=sol)
+                        if diff:
+                            fails.append(('compare|nonempty-loaded-books-on-disk', 'compare() with the loaded books written to disk reports %s' % (diff[:2],)))
+                    else:
+                        fails.append(('missing-book|loaded-on-disk', 'write(books=model.books, dirpath=..) produced %s' % (os.listdir(outl) if os.path.isdir(outl) else None,)))
                     diff = m.compare(*files)
                     if diff:
                         fails.append(('compare|nonempty-default-solution', 'compare() without solution= reports %s' % (diff[:3],)))
